@@ -72,55 +72,74 @@ func witnessParam(name string, T types.Type, qual types.Qualifier) (witParam, bo
 func alphabetOf(fn *ssa.Function) []int { return alphabetOfN(fn, 12) }
 
 func alphabetOfN(fn *ssa.Function, max int) []int {
-	set := map[int]bool{'a': true, ' ': true, '\n': true, 0xC3: true, 0xF0: true}
-	var visit func(f *ssa.Function, depth int)
-	seen := map[*ssa.Function]bool{}
-	visit = func(f *ssa.Function, depth int) {
-		if f == nil || seen[f] || depth > 2 {
-			return
+	// byte constants in order of relevance: string literals and comparison constants of the function itself first,
+	// then those of the same-package functions it calls (two levels), then a few generic bytes
+	var order []int
+	have := map[int]bool{}
+	add := func(v int) {
+		if !have[v] {
+			have[v] = true
+			order = append(order, v)
 		}
-		seen[f] = true
-		for _, b := range f.Blocks {
-			for _, in := range b.Instrs {
-				for _, op := range in.Operands(nil) {
-					if op == nil || *op == nil {
-						continue
-					}
-					if c, ok := (*op).(*ssa.Const); ok && c.Value != nil {
-						switch c.Value.Kind() {
-						case constant.Int:
-							if v, ok := constant.Int64Val(c.Value); ok && v > 8 && v < 256 {
-								set[int(v)] = true
-							}
-						case constant.String:
-							s := constant.StringVal(c.Value)
-							for i := 0; i < len(s) && i < 4; i++ {
-								set[int(s[i])] = true
+	}
+	seen := map[*ssa.Function]bool{}
+	var level []*ssa.Function
+	level = append(level, fn)
+	for depth := 0; depth <= 2 && len(level) > 0; depth++ {
+		var next []*ssa.Function
+		var strs, ints []int
+		for _, f := range level {
+			if f == nil || seen[f] {
+				continue
+			}
+			seen[f] = true
+			for _, b := range f.Blocks {
+				for _, in := range b.Instrs {
+					for _, op := range in.Operands(nil) {
+						if op == nil || *op == nil {
+							continue
+						}
+						if c, ok := (*op).(*ssa.Const); ok && c.Value != nil {
+							switch c.Value.Kind() {
+							case constant.Int:
+								if v, ok := constant.Int64Val(c.Value); ok && v > 8 && v < 256 {
+									ints = append(ints, int(v))
+								}
+							case constant.String:
+								sv := constant.StringVal(c.Value)
+								for i := 0; i < len(sv) && i < 4; i++ {
+									strs = append(strs, int(sv[i]))
+								}
 							}
 						}
 					}
-				}
-				if call, ok := in.(ssa.CallInstruction); ok {
-					if callee := call.Common().StaticCallee(); callee != nil && callee.Pkg == f.Pkg {
-						visit(callee, depth+1)
+					if call, ok := in.(ssa.CallInstruction); ok {
+						if callee := call.Common().StaticCallee(); callee != nil && callee.Pkg == f.Pkg {
+							next = append(next, callee)
+						}
 					}
 				}
 			}
+			next = append(next, f.AnonFuncs...)
 		}
-		for _, af := range f.AnonFuncs {
-			visit(af, depth+1)
+		sort.Ints(strs)
+		sort.Ints(ints)
+		for _, v := range strs {
+			add(v)
 		}
+		for _, v := range ints {
+			add(v)
+		}
+		level = next
 	}
-	visit(fn, 0)
-	var out []int
-	for k := range set {
-		out = append(out, k)
+	for _, v := range []int{'a', ' ', '\n', 0xC3, 0xF0} {
+		add(v)
 	}
-	sort.Ints(out)
-	if len(out) > max {
-		out = out[:max]
+	if len(order) > max {
+		order = order[:max]
 	}
-	return out
+	sort.Ints(order)
+	return order
 }
 
 func (p *Program) tryWitness(cfg *CheckConfig, f *OblResult, replayPath string) string {
@@ -133,6 +152,12 @@ func (p *Program) tryWitness(cfg *CheckConfig, f *OblResult, replayPath string) 
 	}
 	if f.Obl.Kind == "variant" {
 		return ""
+	}
+	if fn != nil && fn.Pkg != nil && strings.HasSuffix(fn.Pkg.Pkg.Path(), "check/compiler/parser") {
+		return p.parserWitness(cfg, f, fn, replayPath)
+	}
+	if c := p.Contract(fn); c != nil && len(c.Requires) > 0 {
+		return "" // a direct call with arbitrary arguments would not respect the function's precondition
 	}
 	if fn == nil || fn.Signature.Recv() != nil || fn.Pkg == nil || fn.Parent() != nil || fn.Signature.Params().Len() == 0 || fn.Signature.Params().Len() > 4 {
 		return ""
@@ -356,6 +381,79 @@ func TestLhvWitness(t *testing.T) {
 }
 `)
 	return p.runWitnessTest(cfg, fn, sb.String(), replayPath, "enumeration of small source texts over the byte constants of the function; the real lexer is run to the end of each under recover() with a time limit, go test -overlay")
+}
+
+// parserWitness: for an obligation inside package parser the WHOLE parser is run over small source texts (so that every
+// function is entered only in states the lexer and its callers can really produce): contexts in which the function's
+// byte constants matter, each followed by every short text over those constants. The parser's own recover() is
+// bypassed; the recovered sentinel (*lexer.TooManyErr) is not a fault.
+func (p *Program) parserWitness(cfg *CheckConfig, f *OblResult, fn *ssa.Function, replayPath string) string {
+	alpha := alphabetOfN(fn, 12)
+	var sb strings.Builder
+	sb.WriteString("package parser\n\nimport (\n\t\"fmt\"\n\t\"testing\"\n\t\"time\"\n\n\t\"luahelper-lsp/langserver/check/compiler/lexer\"\n)\n\n")
+	fmt.Fprintf(&sb, "// generated by lhv: witness search for\n//   %s\n", f.Obl.Name)
+	sb.WriteString("var lhvAlphabet = []byte{")
+	for _, a := range alpha {
+		fmt.Fprintf(&sb, "%d, ", a)
+	}
+	sb.WriteString("}\n\n")
+	sb.WriteString(`func lhvParse(src string) (msg string) {
+	done := make(chan string, 1)
+	go func() {
+		defer func() {
+			if r := recover(); r != nil {
+				if _, sentinel := r.(*lexer.TooManyErr); sentinel {
+					done <- ""
+					return
+				}
+				done <- fmt.Sprint("panics: ", r)
+			}
+		}()
+		p := CreateParser([]byte(src), "witness")
+		p.l.SkipFirstLineComment()
+		p.parseBlock()
+		done <- ""
+	}()
+	select {
+	case m := <-done:
+		return m
+	case <-time.After(500 * time.Millisecond):
+		return "does not return (500 ms)"
+	}
+}
+
+func TestLhvWitness(t *testing.T) {
+	deadline := time.Now().Add(25 * time.Second)
+	contexts := []string{"a = ", "a = 0x", "a = 0X", "a = .", "a = 1", "a = 0x1", "a = 0x.", "a = \"", "a = '", "a = [[", "", "local a <", "f(", "a = {", "for i = "}
+	level := []string{""}
+	all := []string{""}
+	for n := 1; n <= 3; n++ {
+		var next []string
+		for _, s := range level {
+			for _, c := range lhvAlphabet {
+				next = append(next, s+string([]byte{c}))
+			}
+		}
+		all = append(all, next...)
+		level = next
+	}
+	for _, suffix := range all {
+		for _, ctx := range contexts {
+			src := ctx + suffix
+			if time.Now().After(deadline) {
+				fmt.Println("LHV-WITNESS-NONE budget exhausted")
+				return
+			}
+			if msg := lhvParse(src); msg != "" {
+				fmt.Printf("LHV-WITNESS parsing %#v %s\n", src, msg)
+				t.Fatalf("witness found")
+			}
+		}
+	}
+	fmt.Println("LHV-WITNESS-NONE no panic or hang for any enumerated input")
+}
+`)
+	return p.runWitnessTest(cfg, fn, sb.String(), replayPath, "enumeration of small source texts (15 contexts x every text of up to 3 bytes over the function's byte constants); the real parser is run over each with its recover() bypassed, go test -overlay")
 }
 
 func sanit(s string) string { return strings.ReplaceAll(s, ".", "_") }
